@@ -102,6 +102,24 @@ def check(ctx):
                    "no serialisation after the open in helper" if q2 is None else
                    "serialisation after the open in %s" % f.qualname, node=on)
 
+    # C19.2a' other savers: any other function of the package that opens a file for writing and serialises a configuration
+    # (a new `save_config(config, filename)` helper, a `Config.save_as`) is held to the same order
+    saved_reach = an.reachable_fns([save])
+    for f2 in an.fns():
+        if f2 is save or f2 in saved_reach or isinstance(f2.node, ast.Lambda):
+            continue
+        g2 = an.cfg(f2)
+        w2 = [n for n in g2.nodes if n.kind == "call" and any(e[0] == "OPEN" and (any(c in str(e[2]) for c in "wax+") or e[2] == "?") for e in calls.direct(f2, n))]
+        if not w2:
+            continue
+        for on2 in w2:
+            q3 = g2.path(on2, lambda n: any(e[0] in SERIALISE for e in calls.node_events(f2, n)),
+                         may_raise=lambda n: an.node_may_raise(f2, n), from_successors=True)
+            ctx.ob("order.no-serialise-after-open", f2, on2.ast, q3 is None,
+                   "no serialisation after the open" if q3 is None else
+                   "%s opens its destination for writing and serialises afterwards (%s): a failure there leaves a truncated file"
+                   % (f2.qualname, " -> ".join("%s@%s" % (x.kind, x.lineno) for x in q3[:8])), node=on2)
+
     # C19.2b nothing else damages the destination while serialisation has not succeeded: a remove / rename / overwrite of
     # the destination path that can run without dumps having completed normally (in a failure handler, or before dumps) is
     # only sound when it is known that the destination did not exist -- a test on the very path value it acts on
